@@ -353,6 +353,8 @@ Proof. intros ml c num sd xs H. unfold table_ml, draw_patients_ml. rewrite H. re
 (** * the predictive distributions are distributions *)
 Lemma mul_nonneg a c : 0 <= a -> 0 <= c -> 0 <= a * c.
 Proof. revert a c. intros a c. qc2q. generalize (this a) (this c). intros; nra. Qed.
+Lemma add_nonneg a c : 0 <= a -> 0 <= c -> 0 <= a + c.
+Proof. revert a c. intros a c. qc2q. generalize (this a) (this c). intros; lra. Qed.
 Lemma is_dist_valid p : is_dist p -> valid_weights p.
 Proof. intros [Hn Hs]. split; [exact Hn|]. rewrite Hs. reflexivity. Qed.
 Lemma is_dist_cell p k : is_dist p -> cell_len p k = nth k p 0.
@@ -464,3 +466,436 @@ Proof.
       apply (choice_iff _ xc oc (is_dist_valid _ (HOc t Ht)) Hxc) in C4. rewrite C4. reflexivity.
   - intros Ht. split; apply is_dist_cell; [apply HOi|apply HOc]; exact Ht.
 Qed.
+
+(** * draw_is_predictive: midline *)
+Lemma qpow_unit q t : 0 <= q <= 1 -> 0 <= qpow q t <= 1.
+Proof. intros H. induction t as [|t IH]; cbn [qpow]; [apply Qc_unit_1|apply Qc_unit_mul; assumption]. Qed.
+
+Lemma wf_ml_parts ml : wf_ml_sampler ml = true ->
+  wf_midline ml = true /\ wf_bilateral (ml_ext ml) = true /\ wf_bilateral (ml_noext ml) = true /\
+  u_states (b_ipsi (ml_noext ml)) = u_states (b_ipsi (ml_ext ml)).
+Proof.
+  unfold wf_ml_sampler. rewrite !andb_true_iff, Nat.eqb_eq. intros [[Hwf Hn] _].
+  pose proof Hwf as Hwf'. unfold wf_midline in Hwf'. rewrite !andb_true_iff, !Nat.eqb_eq in Hwf'.
+  destruct Hwf' as [[[[He Hno] Hm] Hb] Hl].
+  repeat split; try assumption.
+  destruct (wf_bilateral_parts _ Hno) as (_ & _ & _ & Hbn).
+  unfold u_states, state_list. unfold u_base in *. rewrite Hn. f_equal. congruence.
+Qed.
+Lemma wf_bilateral_unis b : wf_bilateral b = true -> wf_uni (b_ipsi b) = true /\ wf_uni (b_contra b) = true.
+Proof. unfold wf_bilateral. rewrite !andb_true_iff. tauto. Qed.
+
+Lemma ext_probs_spec ml t : (t <= ml_maxt ml)%nat -> ext_probs ml t = [ext_prob ml t false; ext_prob ml t true].
+Proof.
+  intros Ht. unfold ext_probs, ext_prob. destruct (ml_evo ml); [|reflexivity].
+  unfold midext_evo. rewrite (nth_map_seq _ (0, 0) (S (ml_maxt ml)) 0 t) by lia. reflexivity.
+Qed.
+Lemma ext_prob_unit ml t e : 0 <= ml_midext ml <= 1 -> 0 <= ext_prob ml t e <= 1.
+Proof.
+  intros Hp. pose proof (Qc_unit_compl _ Hp) as Hq. pose proof (qpow_unit _ t Hq) as Hw.
+  unfold ext_prob. destruct (ml_evo ml), e; try assumption. apply Qc_unit_compl, Hw.
+Qed.
+Lemma ext_probs_dist ml t : 0 <= ml_midext ml <= 1 -> (t <= ml_maxt ml)%nat -> is_dist (ext_probs ml t).
+Proof.
+  intros Hp Ht. rewrite (ext_probs_spec ml t Ht). split.
+  - intros a [<-|[<-|[]]]; apply ext_prob_unit, Hp.
+  - cbn [sumQ]. unfold ext_prob. destruct (ml_evo ml); ring.
+Qed.
+
+(** non-negativity of the contralateral joint with the extension flag *)
+Lemma chain_nonneg ml : wf_midline ml = true ->
+  params_in_unit (u_graph (b_contra (ml_ext ml))) -> params_in_unit (u_graph (b_contra (ml_noext ml))) ->
+  0 <= ml_midext ml <= 1 ->
+  forall t e x, In x (u_states (b_contra (ml_ext ml))) -> 0 <= chain_contra ml t e x.
+Proof.
+  intros Hwf Hpe Hpn Hp. destruct (wf_midline_parts ml Hwf) as (_ & He & Hn & _ & _ & HS).
+  pose proof (Qc_unit_compl _ Hp) as Hq.
+  induction t as [|t IH]; intros e x Hx.
+  - cbn [chain_contra]. destruct e; [apply Qcle_refl|].
+    destruct (list_eq_dec Nat.eq_dec x (healthy (nlnls (u_graph (b_contra (ml_noext ml)))))); discriminate.
+  - cbn [chain_contra]. destruct e.
+    + apply sumQ_nonneg. intros a Ha. apply in_map_iff in Ha. destruct Ha as [y [<- Hy]].
+      pose proof (IH true y Hy) as H1. pose proof (IH false y Hy) as H2.
+      destruct (entries_in_unit_interval _ y x He Hpe Hy Hx) as [H3 _].
+      destruct Hp as [Hp0 _].
+      apply mul_nonneg; [|exact H3]. apply add_nonneg; [exact H1|apply mul_nonneg; assumption].
+    + apply sumQ_nonneg. intros a Ha. apply in_map_iff in Ha. destruct Ha as [y [<- Hy]].
+      change (state_list (u_graph (b_contra (ml_noext ml)))) with (u_states (b_contra (ml_noext ml))) in Hy.
+      rewrite HS in Hy. pose proof (IH false y Hy) as H2.
+      assert (Hx' : In x (state_list (u_graph (b_contra (ml_noext ml))))).
+      { change (In x (u_states (b_contra (ml_noext ml)))). rewrite HS. exact Hx. }
+      assert (Hy' : In y (state_list (u_graph (b_contra (ml_noext ml))))).
+      { change (In y (u_states (b_contra (ml_noext ml)))). rewrite HS. exact Hy. }
+      destruct (entries_in_unit_interval _ y x Hn Hpn Hy' Hx') as [H3 _].
+      destruct Hq as [Hq0 _].
+      apply mul_nonneg; [apply mul_nonneg; assumption|exact H3].
+Qed.
+Lemma contra_spec_nonneg ml : wf_midline ml = true ->
+  params_in_unit (u_graph (b_contra (ml_ext ml))) -> params_in_unit (u_graph (b_contra (ml_noext ml))) ->
+  0 <= ml_midext ml <= 1 ->
+  forall t e x, In x (u_states (b_contra (ml_ext ml))) -> 0 <= ml_contra_spec ml t e x.
+Proof.
+  intros Hwf Hpe Hpn Hp t e x Hx. destruct (wf_midline_parts ml Hwf) as (_ & He & Hn & _ & _ & HS).
+  unfold ml_contra_spec. destruct (ml_evo ml); [apply chain_nonneg; assumption|].
+  unfold static_contra. destruct e.
+  - apply mul_nonneg; [apply Hp|]. apply (evo_nonneg entries_in_unit_interval _ t x He Hpe Hx).
+  - apply mul_nonneg; [apply (Qc_unit_compl _ Hp)|].
+    apply (evo_nonneg entries_in_unit_interval _ t x Hn Hpn).
+    change (In x (u_states (b_contra (ml_noext ml)))). rewrite HS. exact Hx.
+Qed.
+Lemma contra_spec_sum ml t e : wf_midline ml = true ->
+  sumQ (map (ml_contra_spec ml t e) (u_states (b_contra (case_model ml e)))) = ext_prob ml t e.
+Proof.
+  intros Hwf. unfold ml_contra_spec, ext_prob. destruct (ml_evo ml) eqn:Ev.
+  - destruct (midext_marginal ml t Hwf Ev) as [H1 H2]. destruct e; assumption.
+  - destruct (static_marginal ml t Hwf Ev) as [H1 H2]. destruct e; assumption.
+Qed.
+
+Lemma Qc_ltb_true x y : x < y -> Qc_ltb x y = true.
+Proof.
+  intros H. unfold Qc_ltb. destruct (Qc_leb y x) eqn:E; [|reflexivity].
+  apply Qc_leb_spec in E. exfalso. exact (Qc_le_lt_false _ _ E H).
+Qed.
+
+(** the normalised row is the model's conditional P(X^c_t | e_t = e) *)
+Lemma contra_cond_row ml t e : wf_midline ml = true -> (t <= ml_maxt ml)%nat -> 0 < ext_prob ml t e ->
+  nth t (contra_cond ml e) []
+  = map (fun x => ml_contra_spec ml t e x / ext_prob ml t e) (u_states (b_contra (case_model ml e))).
+Proof.
+  intros Hwf Ht Hpos. unfold contra_cond. rewrite (contra_evo_tab ml Hwf).
+  pose proof (contra_spec_sum ml t e Hwf) as Hsum.
+  destruct e; cbn [fst snd case_model] in *; unfold normalise_rows; rewrite map_map;
+    rewrite nth_map_seq by lia; cbn [Nat.add]; cbv zeta;
+    rewrite Hsum, (Qc_ltb_true _ _ Hpos), map_map; reflexivity.
+Qed.
+Lemma contra_cond_dist ml t e : wf_midline ml = true ->
+  params_in_unit (u_graph (b_contra (ml_ext ml))) -> params_in_unit (u_graph (b_contra (ml_noext ml))) ->
+  0 <= ml_midext ml <= 1 -> (t <= ml_maxt ml)%nat -> 0 < ext_prob ml t e ->
+  length (nth t (contra_cond ml e) []) = length (u_states (b_contra (case_model ml e))) /\
+  (forall a, In a (nth t (contra_cond ml e) []) -> 0 <= a) /\ sumQ (nth t (contra_cond ml e) []) = 1.
+Proof.
+  intros Hwf Hpe Hpn Hp Ht Hpos. rewrite (contra_cond_row ml t e Hwf Ht Hpos).
+  destruct (wf_midline_parts ml Hwf) as (_ & _ & _ & _ & _ & HS).
+  split; [apply map_length|]. split.
+  - intros a Ha. apply in_map_iff in Ha. destruct Ha as [x [<- Hx]]. apply div_nonneg; [|exact Hpos].
+    apply contra_spec_nonneg; try assumption. destruct e; cbn [case_model] in Hx; [exact Hx|rewrite <- HS; exact Hx].
+  - rewrite <- (map_map (ml_contra_spec ml t e) (fun a => a / ext_prob ml t e)), sumQ_map_div, contra_spec_sum by exact Hwf.
+    apply div_self, Qclt_neq0, Hpos.
+Qed.
+
+Lemma index_ext_roundtrip k : (k < 2)%nat -> index_of_ext (ext_of_index k) = k.
+Proof. destruct k as [|[|k]]; intros H; [reflexivity|reflexivity|lia]. Qed.
+Lemma ext_index_roundtrip e : ext_of_index (index_of_ext e) = e.
+Proof. destruct e; reflexivity. Qed.
+
+Section MidlineDraw.
+  Variable ml : midline.
+  Hypothesis Hwfs : wf_ml_sampler ml = true.
+  Hypothesis Hunit : ml_in_unit ml.
+
+  Lemma ml_ipsi_dist e t : (t <= ml_maxt ml)%nat -> is_dist (ml_ipsi_probs ml e t).
+  Proof.
+    intros Ht. destruct (wf_ml_parts ml Hwfs) as (Hwf & Hbe & Hbn & HSi).
+    destruct (wf_bilateral_unis _ Hbe) as [Hie Hce]. destruct (wf_bilateral_unis _ Hbn) as [Hin Hcn].
+    destruct Hunit as ((Hpie & Hmie) & (Hpce & Hmce) & (Hpin & Hmin) & (Hpcn & Hmcn) & Hp).
+    destruct (evo_row_dist (ml_ipsi ml) t (wf_uni_graph _ Hie) Hpie Ht) as (Hl & Hn & Hs).
+    unfold ml_ipsi_probs, obs_probs_of. apply pred_valid; try assumption.
+    - destruct e; cbn [case_model]; apply wf_uni_base; assumption.
+    - destruct e; cbn [case_model]; assumption.
+    - rewrite Hl. unfold ml_ipsi. destruct e; cbn [case_model]; [reflexivity|rewrite HSi; reflexivity].
+  Qed.
+  Lemma ml_contra_dist e t : (t <= ml_maxt ml)%nat -> 0 < ext_prob ml t e -> is_dist (ml_contra_probs ml e t).
+  Proof.
+    intros Ht Hpos. destruct (wf_ml_parts ml Hwfs) as (Hwf & Hbe & Hbn & HSi).
+    destruct (wf_bilateral_unis _ Hbe) as [Hie Hce]. destruct (wf_bilateral_unis _ Hbn) as [Hin Hcn].
+    destruct Hunit as ((Hpie & Hmie) & (Hpce & Hmce) & (Hpin & Hmin) & (Hpcn & Hmcn) & Hp).
+    destruct (contra_cond_dist ml t e Hwf Hpce Hpcn Hp Ht Hpos) as (Hl & Hn & Hs).
+    unfold ml_contra_probs, obs_probs_of. apply pred_valid; try assumption.
+    - destruct e; cbn [case_model]; apply wf_uni_base; assumption.
+    - destruct e; cbn [case_model]; assumption.
+  Qed.
+  Lemma ext_cell_pos t e xe : (t <= ml_maxt ml)%nat -> in_cell (ext_probs ml t) (index_of_ext e) xe -> 0 < ext_prob ml t e.
+  Proof.
+    intros Ht Hc. destruct Hunit as (_ & _ & _ & _ & Hp).
+    pose proof (ext_probs_dist ml t Hp Ht) as Hd.
+    pose proof (in_cell_pos _ xe _ (is_dist_valid _ Hd) Hc) as H.
+    rewrite <- cell_len_spec', (is_dist_cell _ _ Hd), (ext_probs_spec ml t Ht) in H.
+    destruct e; exact H.
+  Qed.
+
+  Lemma ml_draw_is_predictive_aux sd xs xt xe xi xc s t e oi oc :
+    stages_ok (ml_ipsi ml) sd -> unit_u xs -> unit_u xt -> unit_u xe -> unit_u xi -> unit_u xc ->
+    (draw_one_ml ml sd xs xt xe (xi, xc) = (s, t, e, oi, oc)
+     <-> in_cell (renorm_stage_dist sd) s xs /\ in_cell (stage_pmf (ml_ipsi ml) s) t xt
+         /\ in_cell (ext_probs ml t) (index_of_ext e) xe
+         /\ in_cell (ml_ipsi_probs ml e t) oi xi /\ in_cell (ml_contra_probs ml e t) oc xc).
+  Proof.
+    intros Hok Hxs Hxt Hxe Hxi Hxc.
+    destruct (stage_facts (ml_ipsi ml) sd xs s Hok Hxs) as [HS1 HS2].
+    assert (Hp : 0 <= ml_midext ml <= 1) by (destruct Hunit as (_ & _ & _ & _ & Hp); exact Hp).
+    unfold draw_one_ml, draw_diag_time. cbv zeta. cbn [fst snd]. split.
+    - intros E. injection E as E1 E2 E3 E4 E5. rewrite E1 in E2. rewrite E1, E2 in E3. rewrite E1, E2, E3 in E4, E5.
+      apply HS1 in E1. destruct (HS2 E1) as [Hpv Hpl].
+      destruct (time_facts _ xt t _ Hpv Hpl Hxt) as [HT1 HT2]. apply HT1 in E2.
+      pose proof (HT2 E2) as Ht. change (u_maxt (ml_ipsi ml)) with (ml_maxt ml) in Ht.
+      pose proof (ext_probs_dist ml t Hp Ht) as Hed.
+      assert (HE : in_cell (ext_probs ml t) (index_of_ext e) xe).
+      { rewrite <- E3. rewrite index_ext_roundtrip.
+        - apply (choice_iff _ xe _ (is_dist_valid _ Hed) Hxe). reflexivity.
+        - pose proof (choice_lt _ xe (is_dist_valid _ Hed) Hxe) as Hlt.
+          rewrite (ext_probs_spec ml t Ht) in Hlt at 2. exact Hlt. }
+      pose proof (ext_cell_pos t e xe Ht HE) as Hpos.
+      split; [exact E1|]. split; [exact E2|]. split; [exact HE|]. split.
+      + apply (choice_iff _ xi oi (is_dist_valid _ (ml_ipsi_dist e t Ht)) Hxi). exact E4.
+      + apply (choice_iff _ xc oc (is_dist_valid _ (ml_contra_dist e t Ht Hpos)) Hxc). exact E5.
+    - intros (C1 & C2 & C3 & C4 & C5). destruct (HS2 C1) as [Hpv Hpl].
+      destruct (time_facts _ xt t _ Hpv Hpl Hxt) as [HT1 HT2].
+      apply HS1 in C1. rewrite C1. pose proof (HT2 C2) as Ht. change (u_maxt (ml_ipsi ml)) with (ml_maxt ml) in Ht.
+      apply HT1 in C2. rewrite C2.
+      pose proof (ext_probs_dist ml t Hp Ht) as Hed.
+      pose proof (ext_cell_pos t e xe Ht C3) as Hpos.
+      apply (choice_iff _ xe _ (is_dist_valid _ Hed) Hxe) in C3. rewrite C3, ext_index_roundtrip.
+      apply (choice_iff _ xi oi (is_dist_valid _ (ml_ipsi_dist e t Ht)) Hxi) in C4. rewrite C4.
+      apply (choice_iff _ xc oc (is_dist_valid _ (ml_contra_dist e t Ht Hpos)) Hxc) in C5. rewrite C5. reflexivity.
+  Qed.
+End MidlineDraw.
+
+Lemma ml_draw_is_predictive : C16_ml_draw_is_predictive_stmt.
+Proof.
+  intros ml sd xs xt xe xi xc s t e oi oc Hwfs Hunit Hok Hxs Hxt Hxe Hxi Hxc.
+  split; [apply ml_draw_is_predictive_aux; assumption|].
+  split; [apply (stage_dist_renormalised sd s (proj1 Hok))|]. split; [apply cell_len_spec'|].
+  intros Ht. assert (Hp : 0 <= ml_midext ml <= 1) by (destruct Hunit as (_ & _ & _ & _ & Hp); exact Hp).
+  destruct (wf_ml_parts ml Hwfs) as (Hwf & _).
+  split; [|split].
+  - rewrite (is_dist_cell _ _ (ext_probs_dist ml t Hp Ht)), (ext_probs_spec ml t Ht). destruct e; reflexivity.
+  - apply is_dist_cell, ml_ipsi_dist; assumption.
+  - intros Hpos. split; [apply is_dist_cell, ml_contra_dist; assumption|apply contra_cond_row; assumption].
+Qed.
+
+(** * table round trip *)
+Fixpoint leqb (a b : list nat) : bool :=
+  match a, b with
+  | [], [] => true
+  | x :: a', y :: b' => Nat.eqb x y && leqb a' b'
+  | _, _ => false
+  end.
+Lemma leqb_spec a : forall b, leqb a b = true <-> a = b.
+Proof.
+  induction a as [|x a IH]; intros [|y b]; cbn [leqb]; try (split; [discriminate|discriminate]); [tauto|].
+  rewrite andb_true_iff, Nat.eqb_eq, IH. split; [intros [-> ->]; reflexivity|intros E; inversion E; tauto].
+Qed.
+Lemma leqb_refl a : leqb a a = true.
+Proof. apply leqb_spec. reflexivity. Qed.
+Lemma leqb_neq a b : a <> b -> leqb a b = false.
+Proof. intros H. destruct (leqb a b) eqn:E; [|reflexivity]. apply leqb_spec in E. contradiction. Qed.
+Lemma leqb_split n a b : leqb a b = leqb (firstn n a) (firstn n b) && leqb (skipn n a) (skipn n b).
+Proof.
+  apply Bool.eq_iff_eq_true. rewrite andb_true_iff, !leqb_spec. split.
+  - intros ->. split; reflexivity.
+  - intros [H1 H2]. rewrite <- (firstn_skipn n a), <- (firstn_skipn n b), H1, H2. reflexivity.
+Qed.
+Lemma Forall_firstn' {A} (P : A -> Prop) n : forall l, Forall P l -> Forall P (firstn n l).
+Proof. induction n as [|n IH]; intros [|a l] H; cbn [firstn]; try constructor; inversion H; subst; auto. Qed.
+Lemma Forall_skipn' {A} (P : A -> Prop) n : forall l, Forall P l -> Forall P (skipn n l).
+Proof. induction n as [|n IH]; intros [|a l] H; cbn [skipn]; try assumption; inversion H; subst; auto. Qed.
+
+Lemma mem_false_In s l x : mem s l = false -> In x l -> str_eqb x s = false.
+Proof.
+  induction l as [|a l IH]; intros Hm Hx; [destruct Hx|]. cbn [mem] in Hm. apply orb_false_iff in Hm.
+  destruct Hm as [H1 H2]. destruct Hx as [<-|Hx]; [|apply IH; assumption].
+  unfold str_eqb in *. rewrite String.eqb_sym. exact H1.
+Qed.
+Lemma str_eqb_refl s : str_eqb s s = true.
+Proof. apply String.eqb_refl. Qed.
+
+Definition own_pattern (lnls : list string) (zm : state) : pattern :=
+  map (fun '(l, d) => (l, Some (ind_of_bit d))) (combine lnls zm).
+Lemma binary_own_pattern lnls zm : binary_pattern (own_pattern lnls zm) = true.
+Proof.
+  unfold binary_pattern, own_pattern. apply forallb_forall. intros kv H. apply in_map_iff in H.
+  destruct H as [[l d] [<- _]]. cbn [snd]. unfold ind_of_bit. destruct (Nat.eqb d 0); reflexivity.
+Qed.
+Lemma matches_own_pattern lnls : nodupb lnls = true -> forall zm zm',
+  length zm = length lnls -> length zm' = length lnls ->
+  Forall (fun d => (d < 2)%nat) zm -> Forall (fun d => (d < 2)%nat) zm' ->
+  matches_pattern lnls (own_pattern lnls zm) 2 zm' = leqb zm' zm.
+Proof.
+  unfold matches_pattern, own_pattern.
+  induction lnls as [|l0 ls IH]; intros Hnd [|d0 zr] [|d0' zr'] L1 L2 F1 F2; try discriminate; [reflexivity|].
+  cbn [nodupb] in Hnd. apply andb_true_iff in Hnd. destruct Hnd as [Hm Hnd]. apply negb_true_iff in Hm.
+  cbn [combine map forallb leqb pat_get]. rewrite str_eqb_refl.
+  inversion F1 as [|? ? Hd0 F1']; subst. inversion F2 as [|? ? Hd0' F2']; subst.
+  f_equal.
+  - destruct d0 as [|[|?]]; destruct d0' as [|[|?]]; try lia; reflexivity.
+  - rewrite <- (IH Hnd zr zr') by (cbn in L1, L2; try lia; assumption).
+    apply forallb_ext_in. intros [l d] Hin. apply in_combine_l in Hin.
+    rewrite (mem_false_In _ _ _ Hm Hin). reflexivity.
+Qed.
+
+Lemma diag_of_obs_cons m0 ms lnls z :
+  diag_of_obs (m0 :: ms) lnls z
+  = (m0, own_pattern lnls (firstn (length lnls) z)) :: diag_of_obs ms lnls (skipn (length lnls) z).
+Proof. reflexivity. Qed.
+Lemma compatible_own names lnls : nodupb lnls = true -> nodupb names = true -> forall z z',
+  length z = (length names * length lnls)%nat -> length z' = (length names * length lnls)%nat ->
+  Forall (fun d => (d < 2)%nat) z -> Forall (fun d => (d < 2)%nat) z' ->
+  compatible names lnls (diag_of_obs names lnls z) z' = leqb z' z.
+Proof.
+  intros Hl. induction names as [|m0 ms IH]; intros Hnd z z' L1 L2 F1 F2.
+  - destruct z; [|discriminate]. destruct z'; [|discriminate]. reflexivity.
+  - cbn [nodupb] in Hnd. apply andb_true_iff in Hnd. destruct Hnd as [Hm Hnd]. apply negb_true_iff in Hm.
+    rewrite diag_of_obs_cons. unfold compatible. cbn [length chunk combine forallb diag_get]. rewrite str_eqb_refl.
+    cbn [length Nat.mul] in L1, L2.
+    rewrite (leqb_split (length lnls) z' z). f_equal.
+    + apply matches_own_pattern; try assumption.
+      * rewrite firstn_length_le; lia.
+      * rewrite firstn_length_le; lia.
+      * apply Forall_firstn'; assumption.
+      * apply Forall_firstn'; assumption.
+    + rewrite <- (IH Hnd (skipn (length lnls) z) (skipn (length lnls) z'))
+        by (try (rewrite skipn_length; lia); apply Forall_skipn'; assumption).
+      unfold compatible. apply forallb_ext_in. intros [m zm] Hin. apply in_combine_l in Hin.
+      rewrite (mem_false_In _ _ _ Hm Hin). reflexivity.
+Qed.
+
+Lemma NoDup_app' {A} (l1 l2 : list A) : NoDup l1 -> NoDup l2 -> (forall x, In x l1 -> ~ In x l2) -> NoDup (l1 ++ l2).
+Proof.
+  induction l1 as [|a l1 IH]; intros H1 H2 Hd; [exact H2|]. inversion H1; subst. cbn [app]. constructor.
+  - intros Hin. apply in_app_or in Hin. destruct Hin as [Hin|Hin]; [contradiction|]. apply (Hd a); [left; reflexivity|exact Hin].
+  - apply IH; [assumption|assumption|]. intros x Hx. apply Hd. right. exact Hx.
+Qed.
+Lemma NoDup_map_cons (d : nat) (X : list state) : NoDup X -> NoDup (map (cons d) X).
+Proof.
+  induction 1 as [|x X Hx Hn IH]; cbn [map]; constructor; [|exact IH].
+  intros Hin. apply in_map_iff in Hin. destruct Hin as [y [E Hy]]. inversion E; subst. contradiction.
+Qed.
+Lemma NoDup_flat_map_cons (X : list state) (ds : list nat) : NoDup ds -> NoDup X ->
+  NoDup (flat_map (fun d => map (cons d) X) ds).
+Proof.
+  intros Hd HX. induction Hd as [|d ds Hnin Hd IH]; cbn [flat_map]; [constructor|].
+  apply NoDup_app'; [apply NoDup_map_cons, HX|exact IH|].
+  intros x Hx Hx'. apply in_map_iff in Hx. destruct Hx as [y [<- _]].
+  apply in_flat_map in Hx'. destruct Hx' as [d' [Hd' Hy']]. apply in_map_iff in Hy'. destruct Hy' as [y' [E _]].
+  inversion E; subst. contradiction.
+Qed.
+Lemma all_states_NoDup b n : NoDup (all_states b n).
+Proof.
+  induction n as [|n IH]; cbn [all_states]; [constructor; [intros []|constructor]|].
+  apply NoDup_flat_map_cons; [apply seq_NoDup|exact IH].
+Qed.
+Lemma map_const_false {A B} (l : list A) (l' : list B) : length l = length l' ->
+  map (fun _ => false) l = map (fun _ => false) l'.
+Proof. revert l'. induction l as [|a l IH]; intros [|b l'] H; try discriminate; [reflexivity|]. cbn [map]. f_equal. apply IH. cbn in H. lia. Qed.
+
+Lemma onehot_nodup (L : list state) : NoDup L -> forall o, (o < length L)%nat ->
+  map (fun z' => leqb z' (nth o L [])) L = onehot_at o (length L).
+Proof.
+  unfold onehot_at. induction 1 as [|a r Ha Hn IH]; intros o Ho; [cbn in Ho; lia|].
+  cbn [length seq map]. rewrite <- seq_shift, map_map. destruct o as [|o].
+  - cbn [nth]. rewrite leqb_refl. f_equal.
+    rewrite (map_ext_in _ (fun _ => false)) by (intros z' Hz'; apply leqb_neq; intros ->; contradiction).
+    transitivity (map (fun _ : nat => false) (seq 0 (length r))).
+    + apply map_const_false. rewrite seq_length. reflexivity.
+    + apply map_ext. intros j. reflexivity.
+  - cbn [nth]. cbn [length] in Ho. f_equal.
+    + apply leqb_neq. intros ->. apply Ha. apply nth_In. lia.
+    + rewrite IH by lia. apply map_ext. intros j. reflexivity.
+Qed.
+Lemma wf_side_diag mods lnls z ts : wf_patient {| p_tstage := ts; p_find := diag_of_obs mods lnls z |} = true.
+Proof.
+  unfold wf_patient. cbn [p_find]. apply forallb_forall. intros kv H. unfold diag_of_obs in H.
+  apply in_map_iff in H. destruct H as [[m zm] [<- _]]. cbn [snd]. apply binary_own_pattern.
+Qed.
+
+Lemma table_roundtrip : C16_table_roundtrip_stmt.
+Proof.
+  intros u o ts Hwf Ho. unfold side_diag.
+  rewrite (patient_encoding_spec _ _ _ (wf_side_diag _ _ _ ts)). cbn [p_find]. f_equal.
+  assert (Hmn : length (u_mod_names u) = length (u_mods u)) by apply map_length.
+  assert (HL : u_obs_list u = all_states 2 (length (u_mod_names u) * length (u_lnls u))).
+  { unfold u_obs_list, obs_list, u_n, nlnls, u_lnls. rewrite Hmn. reflexivity. }
+  rewrite HL in *. set (L := all_states 2 (length (u_mod_names u) * length (u_lnls u))) in *.
+  rewrite <- (onehot_nodup L (all_states_NoDup _ _) o Ho).
+  assert (Hz : In (nth o L []) L) by (apply nth_In; exact Ho).
+  apply all_states_In in Hz. destruct Hz as [Hzl Hzf].
+  apply map_ext_in. intros z' Hz'. apply all_states_In in Hz'. destruct Hz' as [Hl' Hf'].
+  apply compatible_own; try assumption.
+  - apply wf_uni_lnls, Hwf.
+  - unfold wf_uni in Hwf. apply andb_true_iff in Hwf. exact (proj2 Hwf).
+Qed.
+
+Lemma data_matrix_single u p enc : patient_encoding (u_lnls u) (u_mod_names u) p = inr enc ->
+  data_matrix u [p] None = inr [enc].
+Proof. intros H. unfold data_matrix, select. cbn [map sequence]. rewrite H. reflexivity. Qed.
+
+Lemma rows_roundtrip : C16_rows_roundtrip_stmt.
+Proof.
+  split; [|split].
+  - intros u s t o Hwf Ho. apply data_matrix_single. apply table_roundtrip; assumption.
+  - intros b s t i c Hi Hc Hoi Hoc. split; apply data_matrix_single; apply table_roundtrip; assumption.
+  - intros ml s t e i c Hi Hc Hoi Hoc. split; [reflexivity|].
+    split; apply data_matrix_single; apply table_roundtrip; assumption.
+Qed.
+
+Lemma seed_determinism : C16_seed_determinism_stmt.
+Proof. intros num sd xs xs' ->. repeat split. Qed.
+
+(** * Boolean forms of the hypotheses (for concrete objects) *)
+Definition unitb (a : Qc) : bool := Qc_leb 0 a && Qc_leb a 1.
+Definition uni_in_unitb (u : uni) : bool :=
+  forallb (fun e => unitb (e_spread e) && unitb (e_micro e)) (g_edges (u_graph u))
+  && forallb (fun m => unitb (m_spec m) && unitb (m_sens m)) (map snd (u_mods u)).
+Definition valid_weightsb (p : vec) : bool := forallb (Qc_leb 0) p && Qc_ltb 0 (sumQ p).
+Definition stages_okb (u : uni) (sd : vec) : bool :=
+  valid_weightsb sd
+  && forallb (fun s => valid_weightsb (stage_pmf u s) && Nat.eqb (length (stage_pmf u s)) (S (u_maxt u))) (seq 0 (length sd)).
+Definition ml_in_unitb (ml : midline) : bool :=
+  uni_in_unitb (b_ipsi (ml_ext ml)) && uni_in_unitb (b_contra (ml_ext ml))
+  && uni_in_unitb (b_ipsi (ml_noext ml)) && uni_in_unitb (b_contra (ml_noext ml)) && unitb (ml_midext ml).
+Definition unit_ub (u : Qc) : bool := Qc_leb 0 u && Qc_ltb u 1.
+
+Lemma unitb_ok a : unitb a = true -> 0 <= a <= 1.
+Proof. unfold unitb. rewrite andb_true_iff, !Qc_leb_spec. tauto. Qed.
+Lemma Qc_ltb_spec x y : Qc_ltb x y = true -> x < y.
+Proof.
+  unfold Qc_ltb, Qc_leb. destruct (Qclt_le_dec x y) as [H|H]; [intros _; exact H|discriminate].
+Qed.
+Lemma unit_ub_ok u : unit_ub u = true -> unit_u u.
+Proof. unfold unit_ub, unit_u. rewrite andb_true_iff, Qc_leb_spec. intros [H1 H2]. split; [exact H1|apply Qc_ltb_spec, H2]. Qed.
+Lemma uni_in_unitb_ok u : uni_in_unitb u = true -> uni_in_unit u.
+Proof.
+  unfold uni_in_unitb, uni_in_unit, params_in_unit, mods_in_unit. rewrite andb_true_iff, !forallb_forall.
+  intros [H1 H2]. split.
+  - intros e He. specialize (H1 e He). apply andb_true_iff in H1. destruct H1. split; apply unitb_ok; assumption.
+  - intros m Hm. specialize (H2 m Hm). apply andb_true_iff in H2. destruct H2. split; apply unitb_ok; assumption.
+Qed.
+Lemma valid_weightsb_ok p : valid_weightsb p = true -> valid_weights p.
+Proof.
+  unfold valid_weightsb, valid_weights. rewrite andb_true_iff, forallb_forall. intros [H1 H2]. split.
+  - intros a Ha. apply Qc_leb_spec, H1, Ha.
+  - apply Qc_ltb_spec, H2.
+Qed.
+Lemma stages_okb_ok u sd : stages_okb u sd = true -> stages_ok u sd.
+Proof.
+  unfold stages_okb, stages_ok. rewrite andb_true_iff, forallb_forall. intros [H1 H2]. split; [apply valid_weightsb_ok, H1|].
+  intros s Hs. specialize (H2 s). rewrite andb_true_iff, Nat.eqb_eq in H2.
+  destruct H2 as [H3 H4]; [apply in_seq; lia|]. split; [apply valid_weightsb_ok, H3|exact H4].
+Qed.
+Lemma ml_in_unitb_ok ml : ml_in_unitb ml = true -> ml_in_unit ml.
+Proof.
+  unfold ml_in_unitb, ml_in_unit. rewrite !andb_true_iff. intros [[[[H1 H2] H3] H4] H5].
+  split; [apply uni_in_unitb_ok, H1|]. split; [apply uni_in_unitb_ok, H2|]. split; [apply uni_in_unitb_ok, H3|].
+  split; [apply uni_in_unitb_ok, H4|apply (unitb_ok _ H5)].
+Qed.
+
+(** * Concrete objects for the non-vacuity examples of properties/C16.v:
+    the midline model of C04 (trinary graph T -> II, T -> III, III -> II with growth, two
+    modalities, a frozen and a binomial time distribution, max_time = 2, midext_prob = 1/3),
+    an unnormalised stage distribution, and a stream of 15 uniforms for 3 patients *)
+Definition C16_ex_sd : vec := [qc 1 2; qc 3 2].
+Definition C16_ex_stream : list Qc :=
+  [qc 1 10; qc 1 4; qc 9 10;                       (* T-stages: cells [0,1/4) and [1/4,1) *)
+   qc 3 5; qc 99 100; qc 1 2;                      (* diagnosis times *)
+   qc 1 2; qc 9 10; qc 1 5;                        (* extension *)
+   qc 1 3; qc 7 8; qc 1 2; qc 1 9; qc 2 3; qc 4 5] (* findings, routed by the extension mask *).
